@@ -79,17 +79,32 @@ class FS:
             self.names.append(_norm_name(name))
             self.contents.append(content)
 
+    def resolve(self, name, follow=True):
+        """Index of the entry `name` denotes (-1: none); symbolic links are followed (bounded) unless follow is False."""
+        i = self._find(name)
+        hops = 0
+        while follow and i >= 0 and isinstance(self.contents[i], Link) and hops < 4:
+            tgt = self.contents[i].target
+            base = self.names[i]
+            if type(tgt) is str and not tgt.startswith("/") and type(base) is str and "/" in base:
+                tgt = base.rsplit("/", 1)[0] + "/" + tgt
+            i = self._find(tgt)
+            hops += 1
+        if i >= 0 and follow and isinstance(self.contents[i], Link):
+            return -1
+        return i
+
     def exists(self, name):
-        return self._find(name) >= 0
+        return self.resolve(name) >= 0
 
     def getsize(self, name):
-        i = self._find(name)
+        i = self.resolve(name)
         if i < 0:
             raise FileNotFoundError(2, "No such file or directory", str(name))
         return len(self.contents[i])
 
     def read(self, name):
-        i = self._find(name)
+        i = self.resolve(name)
         if i < 0:
             raise FileNotFoundError(2, "No such file or directory", str(name))
         return self.contents[i]
@@ -351,8 +366,12 @@ class HashStub:
         self.parts = []
 
     def update(self, data):
+        if isinstance(data, memoryview):
+            data = data.tobytes()
         if not isinstance(data, (bytes, bytearray)):
             raise TypeError("data must be bytes-like")
+        if len(data) == 0 and self.parts:
+            return
         self.parts.append(data)
 
     def finalize(self):
